@@ -40,6 +40,12 @@ DoResize(o, n) ==
     /\ IF n <= LenOf(o)
        THEN Resize(o, n, Fresh(0), SubSeq(S(o), 1, n), SubSeq(S(o), n + 1, LenOf(o)) \o <<Fresh(0)>>, {}) /\ nv' = nv + 1
        ELSE Resize(o, n, Fresh(0), S(o) \o ResizeTail(o, n), <<Fresh(0)>>, Elems(ResizeTail(o, n))) /\ nv' = nv + 1 + (n - LenOf(o))
+WithTail(o, n) == [j \in 1..(n - LenOf(o)) |-> Fresh(j - 1)]
+DoResizeWith(o, n) ==
+    /\ "resize_with" \in Ops /\ n \in 0..MaxLen
+    /\ IF n <= LenOf(o)
+       THEN ResizeWith(o, n, <<>>, SubSeq(S(o), n + 1, LenOf(o)), {}) /\ nv' = nv
+       ELSE ResizeWith(o, n, WithTail(o, n), <<>>, {}) /\ nv' = nv + (n - LenOf(o))
 DoExtendMove(o) ==
     /\ "extend_move" \in Ops /\ LenOf(o) + 2 <= MaxLen
     /\ ExtendMove(o, <<Fresh(0), Fresh(1)>>, <<>>, {}) /\ nv' = nv + 2
@@ -61,7 +67,7 @@ DoDrop == /\ "drop" \in Ops /\ 2 \in DOMAIN seqs
 Next ==
     \/ \E o \in DOMAIN seqs :
         \/ DoPush(o) \/ DoPop(o) \/ DoClear(o) \/ DoShrink(o) \/ DoExtendMove(o) \/ DoExtendClone(o)
-        \/ \E i \in 0..(MaxLen + 1) : DoInsert(o, i) \/ DoRemove(o, i) \/ DoSet(o, i) \/ DoTruncate(o, i) \/ DoResize(o, i)
+        \/ \E i \in 0..(MaxLen + 1) : DoInsert(o, i) \/ DoRemove(o, i) \/ DoSet(o, i) \/ DoTruncate(o, i) \/ DoResize(o, i) \/ DoResizeWith(o, i)
     \/ DoClone
     \/ DoDrop
 
